@@ -2,6 +2,7 @@
   C14 — Raw bytes become a structure only when aligned, padded and size-consistent.
   Property theorems only; helper lemmas live in Mb2/Lemmas.
 -/
+import Mb2.Props.FnsTblMbi
 import Mb2.Props.FnsLinked
 import Mb2.Props.FnsGetters
 import Mb2.Props.FnsAlign
